@@ -48,7 +48,7 @@ def process_step(S, *, policy_kind=None, with_result=False, ttl=False):
     if has_du:
         S.assume(du <= now)
     o.has_ttl = has_ttl = S.flag("has_ttl") if ttl else False
-    o.ttl = ttl_us = S.int("ttl", SEC, HUNDRED_Y) if has_ttl else None
+    o.ttl = ttl_us = S.int("ttl", 0, HUNDRED_Y) if has_ttl else None
 
     # retry policy ------------------------------------------------------------------------
     if policy_kind is None:
